@@ -11,8 +11,10 @@ Conventions
   `random()` results and `indpb` and perform the comparison themselves);
 * every operator comes with a `…Ok` guard: exactly the situation in which the Python code runs
   through without raising *and* the draws are values the `random` functions can return.  The
-  pure functions are total; what they compute outside the guard is meaningless (the driver
-  answers `reject` there) and no theorem speaks about it.
+  driver answers `reject` outside the guard.  `mutShuffleIndexes` and `mutUniformInt` return
+  `none` there themselves (they can raise after the draws were made); the slice crossovers are
+  meaningful for every cut point because Python slices clamp exactly like `take`/`drop`; for the
+  index-table operators (PMX, UPMX, OX) the guard is a hypothesis of every theorem.
 -/
 namespace CrossMut
 
@@ -29,11 +31,11 @@ def sliceAssign (l : List α) (a b : Nat) (r : List α) : List α :=
   l.take a ++ r ++ l.drop (max a b)
 
 /-- `l[i], l[j] = l[j], l[i]`: right-hand side first (`x = l[j]`, `y = l[i]`), then `l[i] = x`,
-then `l[j] = y`.  (An out-of-range index raises in Python; the guards exclude it.) -/
-def pySwap (l : List α) (i j : Nat) : List α :=
+then `l[j] = y`.  `none` = `IndexError` (an index outside the list). -/
+def pySwap? (l : List α) (i j : Nat) : Option (List α) :=
   match l[j]?, l[i]? with
-  | some x, some y => (l.set i x).set j y
-  | _, _ => l
+  | some x, some y => some ((l.set i x).set j y)
+  | _, _ => none
 
 /-- `a[i], b[i] = b[i], a[i]` on two different lists. -/
 def swapAt2 (i : Nat) (p : List α × List α) : List α × List α :=
@@ -292,19 +294,26 @@ instance (ind1 ind2 : List Nat) (c d : Nat) : Decidable (cxOrderedOk ind1 ind2 c
 
 /-! ### mutShuffleIndexes (mutation.py:98-122) -/
 
+/-- loop body of `mutShuffleIndexes` for index `id.1` with draws `id.2`; the state is `none` once
+the call has raised -/
+def shuffleStep (size : Nat) (acc : Option (List α)) (id : Nat × Option Nat) : Option (List α) :=
+  match acc, id.2 with
+  | none, _ => none
+  | some ind, none => some ind                 -- random() >= indpb
+  | some ind, some s =>
+    if s + 2 ≤ size then                       -- randint(0, size - 2) answered s
+      let swapIndx := if s ≥ id.1 then s + 1 else s
+      pySwap? ind id.1 swapIndx
+    else none
+
 /-- `for i in range(size): if random.random() < indpb: swap_indx = randint(0, size - 2);
 if swap_indx >= i: swap_indx += 1; individual[i], individual[swap_indx] = individual[swap_indx], individual[i]`.
-`ds[i] = some s` = gene `i` selected and `randint` returned `s`. -/
-def mutShuffleIndexes (individual : List α) (ds : List (Option Nat)) : List α :=
+`ds[i] = some s` = gene `i` selected and `randint` returned `s`.
+`none` = the call raises (`randint(0, size - 2)` with `size < 2` is a `ValueError`, an index outside
+the list an `IndexError`) or `s` is not a value `randint(0, size - 2)` can return. -/
+def mutShuffleIndexes (individual : List α) (ds : List (Option Nat)) : Option (List α) :=
   let size := individual.length
-  ((List.range size).zip ds).foldl
-    (fun ind (id : Nat × Option Nat) =>
-      match id.2 with
-      | none => ind
-      | some s =>
-        let swapIndx := if s ≥ id.1 then s + 1 else s
-        pySwap ind id.1 swapIndx)
-    individual
+  ((List.range size).zip ds).foldl (shuffleStep size) (some individual)
 
 /-- `size` calls of `random()`; a selected gene needs `size ≥ 2` for `randint(0, size-2)`. -/
 def mutShuffleIndexesOk (individual : List α) (ds : List (Option Nat)) : Prop :=
@@ -320,7 +329,7 @@ instance (individual : List α) (ds : List (Option Nat)) : Decidable (mutShuffle
   infer_instance
 
 def mutShuffleIndexesR {ρ : Type} [LT ρ] [DecidableLT ρ] (individual : List α) (indpb : ρ) (rs : List ρ)
-    (vs : List Nat) : List α :=
+    (vs : List Nat) : Option (List α) :=
   mutShuffleIndexes individual (drawOpts indpb rs vs)
 
 /-! ### mutFlipBit (mutation.py:125-143) -/
